@@ -30,6 +30,7 @@ package main
 import (
 	"fmt"
 	"go/ast"
+	"go/build"
 	"go/build/constraint"
 	"go/importer"
 	"go/parser"
@@ -252,6 +253,17 @@ func recvBase(fd *ast.FuncDecl) (name string, ptr bool) {
 	return "", false
 }
 
+// matchFile: is this file part of the package as the go tool builds it here (GOOS, GOARCH,
+// release tags, file name suffixes, //go:build and +build lines; no extra tags, so files
+// guarded by the `verif` tag are left out)?  go/build decides, the same way `go build` does.
+func matchFile(path string) bool {
+	ok, err := build.Default.MatchFile(filepath.Dir(path), filepath.Base(path))
+	if err != nil {
+		die("%s: %v", path, err)
+	}
+	return ok
+}
+
 func main() {
 	if len(os.Args) < 2 {
 		die("usage: clone2coq <repo>")
@@ -273,7 +285,7 @@ func main() {
 		if err != nil {
 			die("%v", err)
 		}
-		if buildable(f) {
+		if matchFile(n) {
 			files = append(files, f)
 		}
 	}
